@@ -2,24 +2,133 @@
 From Coq Require Import ZArith List Bool Lia String.
 From Coq.Strings Require Import Byte.
 From Verif Require Import Lib.Bytes Gen.GenNetworks Gen.GenConsts Model.Wire Model.AddrScript.
-From Verif Require Import Proofs.AddrScriptSpec Proofs.AddrScriptTac Proofs.AddrScriptStr Proofs.AddrScriptInv.
+From Verif Require Import Proofs.AddrScriptSpec Proofs.AddrScriptTac Proofs.AddrScriptStr Proofs.AddrScriptInv
+     Proofs.AddrScriptObj Proofs.AddrScriptParse Proofs.AddrScriptHd.
 Import ListNotations.
 Open Scope Z_scope.
 
 Section WithH.
 Variable H160 : bytes -> bytes.
 
+(* ---------- what the guard gives: to_bytes leaves the payload, the standard script and the version bytes alone ---------- *)
+Lemma guard_payload fx d : hex_guard fx d -> fx_tb fx (d_payload d) = d_payload d.
+Proof. exact (tb_guard fx d). Qed.
+
+Lemma guard_pfx fx d : hex_guard fx d -> forall n, In n all_networks -> pfx_ok fx n.
+Proof. intros Hg n Hn. apply pfx_guard; [exact Hn|exact (hex_guard_kind fx d Hg)]. Qed.
+
+(* ---------- the statements of Properties/C05.v ---------- *)
+Lemma lock_is_spec_hash_g fx net d :
+  In net all_networks -> standard d = true ->
+  (fx_witver fx = true \/ cls_witver_obj d = false) -> hex_guard fx d ->
+  out_is (lib_out_hash H160 fx net (d_payload d) (Some (stype_name (d_stype d))) (d_witver d) None)
+         (spec_lock_script d) (stype_name (d_stype d)) (nw_name net) (OaIs (spec_address net d)).
+Proof.
+  intros Hn Hs Hw Hg. apply lock_is_spec_hash; [exact Hn|exact Hs|exact Hw|exact (guard_payload fx d Hg)|exact (guard_pfx fx d Hg net Hn)].
+Qed.
+
+Lemma lock_is_spec_obj_g fx net d :
+  In net all_networks -> standard d = true ->
+  (fx_witver fx = true \/ cls_witver_obj d = false) -> hex_guard fx d ->
+  match lib_address_new H160 fx (d_payload d) None (Some (stype_name (d_stype d))) None None (d_witver d) net with
+  | Some ao =>
+    ao_addr ao = spec_address net d /\
+    out_is (lib_out_addr_obj H160 fx net ao)
+           (spec_lock_script d) (stype_name (d_stype d)) (nw_name net) (OaIs (spec_address net d))
+  | None => False
+  end.
+Proof.
+  intros Hn Hs Hw Hg. apply lock_is_spec_obj; [exact Hn|exact Hs|exact Hw|exact (guard_payload fx d Hg)|exact (guard_pfx fx d Hg net Hn)].
+Qed.
+
+Lemma lock_is_spec_parse_g fx net d :
+  In net all_networks -> standard d = true ->
+  (fx_witver fx = true \/ cls_witver_parse d = false) -> hex_guard fx d ->
+  match lib_address_parse H160 fx (spec_address net d) (Some (nw_name net)) with
+  | Some ao =>
+    ao_addr ao = spec_address net d /\
+    out_is (lib_out_addr_obj H160 fx net ao)
+           (spec_lock_script d) (stype_name (d_stype d)) (nw_name net) (OaIs (spec_address net d))
+  | None => False
+  end.
+Proof.
+  intros Hn Hs Hw Hg. apply lock_is_spec_parse; [exact Hn|exact Hs|exact Hw|exact (guard_payload fx d Hg)|exact (guard_pfx fx d Hg)].
+Qed.
+
+Lemma lock_is_spec_parse_nonet_g fx net d :
+  In net all_networks -> standard d = true ->
+  fx_witver fx = true -> fx_netobj fx = true -> hex_guard fx d ->
+  match lib_address_parse H160 fx (spec_address net d) None with
+  | Some ao =>
+    ao_addr ao = spec_address net d /\
+    out_is (lib_out_addr_obj H160 fx net ao)
+           (spec_lock_script d) (stype_name (d_stype d)) (nw_name net) (OaIs (spec_address net d))
+  | None => False
+  end.
+Proof.
+  intros Hn Hs Hw Ho Hg. apply lock_is_spec_parse_nonet; [exact Hn|exact Hs|exact Hw|exact Ho|exact (guard_payload fx d Hg)|exact (guard_pfx fx d Hg)].
+Qed.
+
+Lemma lib_inverse_script_g fx net d :
+  In net all_networks -> standard d = true -> hex_guard fx d ->
+  out_is (lib_out_script H160 fx net (spec_lock_script d))
+         (spec_lock_script d) (stype_name (d_stype d)) (nw_name net) (OaIs (spec_address net d)).
+Proof.
+  intros Hn Hs Hg. apply lib_inverse_script;
+    [exact Hn|exact Hs|exact (guard_payload fx d Hg)|exact (tb_guard_script fx d Hs Hg)|exact (guard_pfx fx d Hg net Hn)].
+Qed.
+
+(* Transaction.parse of a raw transaction that pays to the standard script *)
+Lemma lib_inverse_tx_g fx net d :
+  In net all_networks -> standard d = true -> hex_guard fx d ->
+  out_is (lib_out_tx H160 fx net (spec_lock_script d))
+         (spec_lock_script d) (stype_name (d_stype d)) (nw_name net) (OaIs (spec_address net d)).
+Proof. exact (lib_inverse_script_g fx net d). Qed.
+
+(* an output that carries the standard script of [d], however it was made, comes back from
+   Transaction.raw() / Transaction.parse() as exactly the output of [d] *)
+Lemma lib_reparse_standard fx net d r st nm a :
+  In net all_networks -> standard d = true -> hex_guard fx d ->
+  out_is r (spec_lock_script d) st nm a ->
+  out_is (lib_reparse H160 fx net r)
+         (spec_lock_script d) (stype_name (d_stype d)) (nw_name net) (OaIs (spec_address net d)).
+Proof.
+  intros Hn Hs Hg (o & -> & Hl & _). unfold lib_reparse. rewrite Hl. apply lib_inverse_tx_g; assumption.
+Qed.
+
+(* address -> output -> wire -> output: the parsed output reports the address the first one was built from *)
+Lemma lib_tx_roundtrip fx net d :
+  In net all_networks -> standard d = true ->
+  (fx_witver fx = true \/ cls_witver_str d = false) -> hex_guard fx d ->
+  out_is (lib_reparse H160 fx net (lib_out_addr_str H160 fx net (spec_address net d)))
+         (spec_lock_script d) (stype_name (d_stype d)) (nw_name net) (OaIs (spec_address net d)).
+Proof.
+  intros Hn Hs Hw Hg. eapply lib_reparse_standard; [exact Hn|exact Hs|exact Hg|].
+  exact (lock_is_spec_str H160 fx net d Hn Hs Hw).
+Qed.
+
 Lemma lib_roundtrip fx net d :
   In net all_networks -> standard d = true ->
-  (fx_witver fx = true \/ cls_witver_str d = false) ->
+  (fx_witver fx = true \/ cls_witver_str d = false) -> hex_guard fx d ->
   lib_script_to_address H160 fx net (spec_lock_script d) = Some (spec_address net d, stype_name (d_stype d)) /\
   lib_output_script H160 fx net (spec_address net d) = Some (spec_lock_script d).
 Proof.
-  intros Hn Hs Hg. split.
-  - destruct (lib_inverse_script H160 fx net d Hn Hs) as (o & Ho & _ & Hst & _ & Ha).
+  intros Hn Hs Hg Hh. split.
+  - destruct (lib_inverse_script_g fx net d Hn Hs Hh) as (o & Ho & _ & Hst & _ & Ha).
     unfold lib_script_to_address. rewrite Ho, Ha, Hst. reflexivity.
   - destruct (lock_is_spec_str H160 fx net d Hn Hs Hg) as (o & Ho & Hl & _).
     unfold lib_output_script, lib_out_addr_str in *. rewrite Ho, Hl. reflexivity.
+Qed.
+
+(* the address -> script direction alone needs no guard on the payload: the bytes come out of the address decoder *)
+Lemma lib_output_script_spec fx net d :
+  In net all_networks -> standard d = true ->
+  (fx_witver fx = true \/ cls_witver_str d = false) ->
+  lib_output_script H160 fx net (spec_address net d) = Some (spec_lock_script d).
+Proof.
+  intros Hn Hs Hg.
+  destruct (lock_is_spec_str H160 fx net d Hn Hs Hg) as (o & Ho & Hl & _).
+  unfold lib_output_script, lib_out_addr_str in *. rewrite Ho, Hl. reflexivity.
 Qed.
 
 (* what the library reports for a script identifies the destination: two standard destinations that
@@ -33,9 +142,40 @@ Proof.
   intros Hn Hs Hs' Hg E.
   assert (G : fx_witver fx = true \/ cls_witver_str d = false) by tauto.
   assert (G' : fx_witver fx = true \/ cls_witver_str d' = false) by tauto.
-  destruct (lib_roundtrip fx net d Hn Hs G) as [_ H1].
-  destruct (lib_roundtrip fx net d' Hn Hs' G') as [_ H2].
-  rewrite H1, H2 in E. apply spec_lock_injective; [apply standard_is_wide; exact Hs | apply standard_is_wide; exact Hs' | congruence].
+  rewrite (lib_output_script_spec fx net d Hn Hs G), (lib_output_script_spec fx net d' Hn Hs' G') in E.
+  apply spec_lock_injective; [apply standard_is_wide; exact Hs | apply standard_is_wide; exact Hs' | congruence].
+Qed.
+
+Lemma tb_leaves_in fx l x : tb_leaves fx l -> In x l -> fx_tb fx x = x.
+Proof.
+  intros [H|[H Hl]] Hin; [apply H|]. rewrite H. apply to_bytes_id.
+  rewrite forallb_forall in Hl. specialize (Hl x Hin). destruct (hexlike x); [discriminate|reflexivity].
+Qed.
+
+Lemma tb_leaves_kind fx l : tb_leaves fx l -> (forall x, fx_tb fx x = x) \/ fx_tb fx = lib_to_bytes.
+Proof. intros [H|[H _]]; [left|right]; exact H. Qed.
+
+(* HDKey(..., network=net, witness_type=w, multisig=ms) handed to an output of its own network *)
+Lemma lock_is_spec_hd_g fx net w ms h160 s256 pub :
+  (forall x, List.length (H160 x) = 20%nat) ->
+  In net all_networks -> List.length h160 = 20%nat -> List.length s256 = 32%nat -> pub <> [] ->
+  tb_leaves fx (hd_leaves H160 w h160 s256 pub) ->
+  match lib_hd_address_obj H160 fx net w ms h160 s256 with
+  | Some ao =>
+    ao_addr ao = spec_address net (spec_hd_dest H160 w ms h160 s256) /\
+    out_is (lib_out_hd H160 fx net ao pub w ms)
+           (spec_lock_script (spec_hd_dest H160 w ms h160 s256))
+           (stype_name (d_stype (spec_hd_dest H160 w ms h160 s256))) (nw_name net)
+           (OaIs (spec_address net (spec_hd_dest H160 w ms h160 s256)))
+  | None => False
+  end.
+Proof.
+  intros HL Hn L1 L2 Hpub Hg.
+  apply lock_is_spec_hd; try assumption.
+  - unfold hd_clean. repeat split; try (apply (tb_leaves_in fx _ _ Hg); unfold hd_leaves; simpl; tauto).
+    destruct w; try exact I.
+    split; apply (tb_leaves_in fx _ _ Hg); unfold hd_leaves; simpl; tauto.
+  - apply pfx_guard; [exact Hn|exact (tb_leaves_kind fx _ Hg)].
 Qed.
 
 Lemma foreign_object_refused fx o A B d :
